@@ -532,6 +532,10 @@ def run(chk, db, tier):
     sub = Sub(chk, "C12")
     sub.rule("R2", "IP guard: the host parser is reached only when neither parse::<SocketAddr> nor parse::<IpAddr> accepts the whole Host value")
     sub.guard("R2", c12.rule_r2, db, Roles(db))
+    # prerequisite for "whatever input values it carries": the router's query flags are the client's parameter *names*; a query that is
+    # percent-decoded before it is split turns an encoded `&` inside a value into a flag
+    sub.rule("R1", "the query reaches OrderedQs::parse as Uri::query() gave it (decoded exactly once, by the parser)")
+    sub.guard("R1", c12.rule_r1q, db)
     # prerequisite for "causes exactly one invocation": the deserialiser finds the body / path parts the router promised (else it panics
     # and nothing is invoked; decided for C04)
     sub4 = Sub(chk, "C04")
